@@ -8,6 +8,7 @@ instance parser, foreign subtrees, allocation limit) and every listener state / 
 -/
 import Proofs.Lemmas.ListenerHttp
 import Proofs.Lemmas.ListenerXml
+import Proofs.Lemmas.ListenerConc
 import Proofs.Lemmas.XmlText
 
 namespace C17
@@ -345,6 +346,148 @@ theorem C17_valid_indication_accepted (E : Env) (s : LState) (r : Req) (msgid : 
   · simp only [hf, ↓reduceIte, cimErrFailed]; rfl
   · simp only [hf, Bool.false_eq_true, ↓reduceIte]; rfl
 
+/-! ## any request line: http.server's parse_request in front of the handler -/
+
+/-- **Any request line.**  For EVERY raw request line (any octets, any length), every header list and body, every
+    environment and state, one connection ends in exactly one of: nothing written (`silent`), an HTTP/0.9-style
+    bare body, http.server's own error response, or pywbem's response — never a handler exception; the state
+    changes only together with a pywbem 200 answer; http.server's own codes are 400, 414, 431, 501, 505; pywbem's
+    are 200, 400, 405, 406, 500; and the connection stays silent only for a blank line or an HTTP/0.9 request
+    (where http.server suppresses status line and headers). -/
+theorem C17_any_request_line (E : Env) (s : LState) (raw : Str) (hf : Bool) (headers : List (Str × Str))
+    (body : List Nat) :
+    let r := serve Cfg.fixed E s raw hf headers body
+    (∀ e, r.2 ≠ .dropped e) ∧
+    (∀ code, (r.2 = .stdlib code ∨ r.2 = .bare code) → code ∈ [400, 414, 431, 501, 505]) ∧
+    (∀ rsp, r.2 = .status rsp → rsp.status ∈ [200, 400, 405, 406, 500]) ∧
+    (r.1 ≠ s → ∃ rsp, (r.2 = .status rsp ∨ r.2 = .bareBody) ∧ rsp.status = 200) ∧
+    (r.2 = .silent → raw = [] ∨ pySplit (rstripCRLF raw) = [] ∨
+      ∃ c p, parseRequestLine raw = .dispatch c p "HTTP/0.9".toList) := by
+  intro r
+  have hr : r = serve Cfg.fixed E s raw hf headers body := rfl
+  clear_value r
+  unfold serve at hr
+  cases hp : parseRequestLine raw with
+  | silent =>
+    simp only [hp] at hr
+    subst hr
+    refine ⟨by simp, by simp, by simp, by simp, fun _ => ?_⟩
+    unfold parseRequestLine at hp
+    split at hp
+    · cases hp
+    · split at hp
+      · rename_i h; exact Or.inl h
+      · simp only at hp
+        split at hp
+        · rename_i h; exact Or.inr (Or.inl h)
+        · split at hp
+          · cases hp
+          · split at hp
+            · split at hp <;> cases hp
+            · cases hp
+            · cases hp
+  | reject w =>
+    simp only [hp] at hr
+    subst hr
+    rcases parseRequestLine_reject hp with rfl | rfl | rfl | rfl <;> simp
+  | dispatch c p ver =>
+    simp only [hp] at hr
+    cases hf with
+    | true =>
+      simp only [↓reduceIte] at hr
+      subst hr
+      rcases emitError_cases ver 431 with e | e <;> simp [e]
+    | false =>
+      simp only [Bool.false_eq_true, ↓reduceIte] at hr
+      rcases handle_fixed E s { method := c, headers := headers, body := body } with hn | ⟨x, hx, ho⟩
+      · simp only [hn] at hr
+        subst hr
+        rcases emitError_cases ver 501 with e | e <;> simp [e]
+      · obtain ⟨s', rsp⟩ := x
+        simp only [hx] at hr
+        subst hr
+        have hst := (C17_one_response_documented_status E s s' _ rsp hx).1
+        have hfl := C17_failed_request_leaves_state E s s' _ rsp hx
+        simp only [render]
+        by_cases h9 : ver = "HTTP/0.9".toList
+        · simp only [h9, ↓reduceIte]
+          refine ⟨by split <;> simp, by split <;> simp, by split <;> simp, ?_, fun _ => Or.inr (Or.inr ⟨c, p, by rw [← h9]⟩)⟩
+          intro hne
+          rcases hfl with rfl | ⟨msgid, inst, _, _, hrsp⟩
+          · exact absurd rfl hne
+          · refine ⟨rsp, ?_, by rw [hrsp]; rfl⟩
+            have : rsp.body ≠ [] := by
+              rw [hrsp]; simp only [exportRsp, rspBody]; rw [xmlDecl_head]; simp
+            simp [this]
+        · simp only [h9, ↓reduceIte]
+          refine ⟨by simp, by simp, by intro r' hr'; cases hr'; exact hst, ?_, by simp⟩
+          intro hne
+          rcases hfl with rfl | ⟨msgid, inst, _, _, hrsp⟩
+          · exact absurd rfl hne
+          · exact ⟨rsp, Or.inl rfl, by rw [hrsp]; rfl⟩
+
+/-- the request-line rules on the cases the RFCs and http.server's comments name -/
+theorem C17_request_line_examples :
+    parseRequestLine "POST / HTTP/1.1\r\n".toList = .dispatch "POST".toList "/".toList "HTTP/1.1".toList ∧
+    parseRequestLine "GET /\r\n".toList = .dispatch "GET".toList "/".toList "HTTP/0.9".toList ∧
+    parseRequestLine "POST /\r\n".toList = .reject (.bare 400) ∧
+    parseRequestLine "POST / HTTP/2.0\r\n".toList = .reject (.bare 505) ∧
+    parseRequestLine "POST / HTTP/1.1.1\r\n".toList = .reject (.bare 400) ∧
+    parseRequestLine "POST / FOO/1.1\r\n".toList = .reject (.bare 400) ∧
+    parseRequestLine "POST / x HTTP/1.1\r\n".toList = .reject (.stdlib 400) ∧
+    parseRequestLine "POST\t/\u00a0HTTP/1.0\n".toList = .dispatch "POST".toList "/".toList "HTTP/1.0".toList ∧
+    parseRequestLine "\r\n".toList = .silent ∧ parseRequestLine "FOO".toList = .reject (.bare 400) := by decide
+
+/-! ## handler threads: peers do not wait for each other -/
+
+/-- the listener's server class puts ThreadingMixIn before HTTPServer (else process_request is the serial one) -/
+theorem C17_pin_threaded_server : serverBases = ["socketserver.ThreadingMixIn", "HTTPServer"] := by decide
+
+/-- **Linearisable.**  Whatever the interleaving of connections (request heads arriving, body octets trickling
+    in, peers giving up, the callback thread delivering), the listener state and the sequence of answers are
+    exactly those of the sequential model run on the requests in the order in which they became complete: every
+    theorem about `run` (in particular `C17_survives_any_history`) speaks about concurrent peers, too. -/
+theorem C17_concurrent_linearizable (cfg : Cfg) (cs : CState) (evs : List CEv) :
+    run cfg cs.ls (crun cfg cs evs).trace = ((crun cfg cs evs).st.ls, (crun cfg cs evs).obs) :=
+  crun_lin cfg cs evs
+
+/-- **Progress: nobody waits for somebody else.**  After any such interleaving, starting without pending
+    connections, every connection still unanswered is one whose OWN peer has announced more octets than it has
+    sent and has not stopped sending (a POST that passed the header checks, with a valid Content-Length) — a
+    stalled or slow peer never keeps another request from being answered. -/
+theorem C17_concurrent_progress (s : LState) (evs : List CEv) :
+    ∀ c ∈ (crun Cfg.fixed { ls := s, pending := [] } evs).st.pending,
+      c.eof = false ∧ c.method = "POST".toList ∧ headerCheck c.headers = none ∧
+      0 ≤ clValue c.headers ∧ c.got.length < (clValue c.headers).toNat := by
+  intro c hc
+  have hw := crun_wait Cfg.fixed { ls := s, pending := [] } evs (by intro x hx; cases hx) c hc
+  simp only [Conn.waits, fixed_validateLen, Bool.not_true, Bool.false_and, Bool.and_eq_true, beq_iff_eq,
+    Option.isNone_iff_eq_none, Bool.not_eq_true'] at hw
+  obtain ⟨⟨⟨hm, hh⟩, he⟩, hl⟩ := hw
+  by_cases hneg : clValue c.headers < 0
+  · simp [hneg] at hl
+  · simp only [hneg, ↓reduceIte, Bool.and_eq_true, decide_eq_true_eq] at hl
+    exact ⟨he, hm, hh, by omega, hl.2⟩
+
+/-- a connection whose request is complete is answered at once, with the answer the sequential handler gives in
+    the current listener state, whatever other connections are pending (and they stay pending, untouched) -/
+theorem C17_stalled_peer_blocks_nobody (cfg : Cfg) (cs : CState) (c : Conn) (h : c.waits cfg = false) :
+    (cstep cfg cs (.connect c)).obs = [(step cfg cs.ls (.request c.E c.req)).2] ∧
+    (cstep cfg cs (.connect c)).st.pending = cs.pending := by
+  simp [cstep, advance, h]
+
+/-- nothing is dropped and the queue bookkeeping holds in every concurrent history -/
+theorem C17_concurrent_survives (cap : Nat) (evs : List CEv) :
+    let o := crun Cfg.fixed { ls := LState.init cap, pending := [] } evs
+    (∀ x ∈ o.obs, ∀ e, x ≠ .dropped e) ∧ o.st.ls.accepted = o.st.ls.delivered ++ o.st.ls.queue ∧
+    (cap ≠ 0 → o.st.ls.queue.length ≤ cap) := by
+  intro o
+  have hl := crun_lin Cfg.fixed { ls := LState.init cap, pending := [] } evs
+  have hs := C17_survives_any_history cap o.trace
+  simp only at hl hs
+  rw [hl] at hs
+  exact ⟨hs.2.1, hs.2.2.1, hs.2.2.2.2⟩
+
 /-! ## the request parser made concrete: strict UTF-8 + the proved XML parser, end to end from octets -/
 
 /-- strict UTF-8 decoding undoes encoding (so the octets of any text reach the XML parser as that text) -/
@@ -621,5 +764,21 @@ set_option maxRecDepth 20000 in
 example : headerCheck serReq.headers = none ∧ contentLen serReq.headers = some (serReq.body.length : Int) ∧
     serReq.body.length ≤ 2 ^ 40 ∧
     Pywbem.Model.XmlParse.WfTree (.elem "INSTANCE".toList [("CLASSNAME".toList, "C".toList)] []) := by decide
+
+/-- non-vacuity / witness for the thread model: a peer that announces 5 octets and sends 2 stays pending, the valid
+    indication that arrives meanwhile is answered 200 and queued; with ONE serving thread (`sstepConnect`, the
+    server class without the mixin first) the same indication gets no answer while the first peer stalls -/
+def stalledConn : Conn :=
+  { id := 1, E := demoEnv none [] (.ok ()), method := "POST".toList, headers := demoHeaders "5", got := [60, 67], eof := false }
+def goodConn : Conn :=
+  { id := 2, E := demoEnv (some (demoTree "2.0" [demoParam "C"])) [] (.ok ()), method := "POST".toList,
+    headers := demoHeaders "2", got := [60, 67], eof := true }
+
+set_option maxRecDepth 8000 in
+theorem C17_threaded_vs_serial_witness :
+    let o := crun Cfg.fixed { ls := s0, pending := [] } [.connect stalledConn, .connect goodConn]
+    (o.st.pending.map (·.id) = [1] ∧ o.st.ls.queue.length = 1 ∧ o.obs.length = 1) ∧
+    (let o1 := sstepConnect Cfg.fixed { ls := s0, pending := [] } stalledConn
+     (sstepConnect Cfg.fixed o1.st goodConn).obs = [] ∧ o1.obs = []) := by decide
 
 end C17
